@@ -237,8 +237,24 @@ Definition rm_count_ones (v : rmapper) : res N :=
 
 Record imapper := mkim { im_len : N; im_width : N; im_data : rmapper }.
 
-(* the code as it is now: `offset >= map.len() || offset + 1 >= map.len()` *)
+(* the code as it is now: `offset >= map.len() || offset + 1 >= map.len()`, then
+   `if width == 0 || width > bits::WORD_BITS { return Err(InvalidData) }` (repair ed19660, finding F14) before
+   the raw mapper is created *)
 Definition im_new (m : mode) (file : list N) (offset : N) : vres imapper :=
+  if lenN file <=? offset then VErr UnexpectedEof else
+  let+ o1 := vlift (uadd m offset 1) in
+  if lenN file <=? o1 then VErr UnexpectedEof else
+  let+ len := vlift (idx file offset) in
+  let+ o1' := vlift (uadd m offset 1) in
+  let+ width := vlift (idx file o1') in
+  if (width =? 0) || (bits_WORD_BITS <? width) then VErr InvalidData else
+  let+ o2 := vlift (uadd m offset 2) in
+  let+ data := rm_new m file o2 in
+  VOk (mkim len width data).
+
+(* `new` before the repair ed19660: the width element is not looked at; kept only for
+   C08_mapped_get_wide_old_refuted *)
+Definition im_new_nowidth (m : mode) (file : list N) (offset : N) : vres imapper :=
   if lenN file <=? offset then VErr UnexpectedEof else
   let+ o1 := vlift (uadd m offset 1) in
   if lenN file <=? o1 then VErr UnexpectedEof else
